@@ -42,6 +42,12 @@ OBLIGATIONS.append(ob("c06.f.pk_to_curve25519", "hf_pk_to_curve", ["crypto_sign_
     assumes=["ge25519_frombytes_negate_vartime / has_small_order / is_on_main_subgroup are assumed callees with arbitrary verdicts and an arbitrary reduced y; fe25519_invert, fe25519_mul and fe25519_tobytes are assumed callees with arbitrary results (tobytes: c05.f.fe_codec); "
              "that the inverse and the product are the field inverse / product is NOT decided"],
     cbmc=["--unwind", "66", "--unwinding-assertions"]))
+OBLIGATIONS.append(ob("c06.f.sk_parts", "hf_sk_parts", ["crypto_sign_ed25519_sk_to_seed", "crypto_sign_ed25519_sk_to_pk", "crypto_sign_ed25519_bytes/seedbytes/publickeybytes/secretkeybytes/messagebytes_max", "crypto_sign_ed25519ph_statebytes"],
+    "sk_to_seed / sk_to_pk return the seed and public-key halves of every 64-byte secret key, also with the output placed at any offset inside the secret key (same result as disjoint); size constants",
+    src="harness/sign_api.c", props=("C06",), defs=["-DPART=0"], replayable=True, cbmc=["--unwind", "100", "--unwinding-assertions"]))
+OBLIGATIONS.append(ob("c06.f.generic_api", "hf_generic", ["crypto_sign_seed_keypair", "crypto_sign_keypair", "crypto_sign", "crypto_sign_open", "crypto_sign_detached", "crypto_sign_verify_detached", "crypto_sign_init", "crypto_sign_update", "crypto_sign_final_create", "crypto_sign_final_verify", "crypto_sign_*bytes"],
+    "every generic crypto_sign_* entry point calls the corresponding Ed25519 function exactly once with its arguments unchanged and in order, and returns that function's verdict (a dropped or inverted verification verdict fails here)",
+    src="harness/sign_api.c", props=("C06",), defs=["-DPART=1"], replayable=True, assumes=["the crypto_sign_ed25519* callees are logging stubs with an arbitrary verdict (their own obligations: c06.f.*)"], cbmc=["--unwind", "10", "--unwinding-assertions"]))
 OBLIGATIONS.append(ob("c06.f.ph", "hf_ph", ["crypto_sign_ed25519ph_init", "crypto_sign_ed25519ph_update", "crypto_sign_ed25519ph_final_create", "crypto_sign_ed25519ph_final_verify"],
     "Ed25519ph: the multi-part API signs / verifies the 64-byte SHA-512 pre-hash with the pre-hashed (dom2) flag; verify returns the detached verdict",
     src="harness/sign_ph.c", defs=["-DPART=0"], replayable=True, assumes=["SHA-512 and the detached sign / verify are logging stubs (their own obligations: c06.f.sign_detached, c06.f.verify_detached)"],
